@@ -106,6 +106,10 @@ func (p *P0x9208) String() string {
 
 func (p *P9208AlarmSign) parse(data []byte) {
 	idLen := p.getTerminalIDLen()
+	if len(data) < idLen+8 {
+		// 数据不够这个主动安全类型的报警标识号长度 (例如苏标16字节的扩展项配了黑标) 不解析 否则越界
+		return
+	}
 	p.TerminalID = string(bytes.Trim(data[:idLen], "\x00"))
 	p.Time = utils.BCD2Time(data[idLen : idLen+6])
 	p.SerialNumber = data[idLen+6]
